@@ -23,6 +23,8 @@ func checkC14(p *Prog, r *Result, tier string) {
 	checkCloneEmptiness(p, r, "C14.R7")
 	r.Rule("C14.R8", "what the encoder serialises is what the clone deep-copies: the struct arm of the deep clone also goes through embedded (anonymous) struct fields whose type is not exported, whose exported fields are promoted and serialised (it reads reflect.StructField.Anonymous to find them)", 1)
 	checkCloneEmbedded(p, r, "C14.R8")
+	r.Rule("C14.R9", "every element is cloned into a destination of its own: inside a loop of the deep clone, the reflect.New value handed to a recursive clone call is made in the same iteration", 1)
+	checkCloneFreshDestination(p, r, "C14.R9")
 	r.Rule("C14.R5", "fresh objects on reads: the iterator allocates a new value per element before filling it", 1)
 	r.NotDecided = []string{"'a cached read equals a file round trip' (value equality of clone vs JSON: nil vs empty containers, monotonic clock, unexported fields)", "unexported pointer fields are shared by documented design (comment in object.go)"}
 	a := p.A
